@@ -15,6 +15,7 @@ Line-protocol driver of the C13 completeness-checking model.
     missing <h.s>...                         digests FindMissing reports missing
     fault <callIndex> <code>                 CAS call number <callIndex> of the Get fails with <code>
     run                                      -> result | error <code>, then the CAS calls: fm[<sorted h.s,...>] get[h.s]
+    runc <sliceErr|->                        the same through GetFromComposite with a slicer that yields the child (-) or fails
     visit <hex>                              -> the wire-level visitor model on raw bytes:
                                                 ok|error, then <num>:<offset>:<size> per field the visitor saw
 
@@ -68,14 +69,17 @@ def showCall : Call → String
   | .fm b _ => "fm[" ++ ",".intercalate ((sortDgs b).map showDg) ++ "]"
   | .get t _ => "get[" ++ showDg t ++ "]"
 
-def runCase (s : S) : String :=
+def runCase (s : S) (composite : Option (Option Code) := none) : String :=
   match s.ac with
   | none => "bad-op"
   | some ac =>
     let reply : AcReply := match ac with
       | .inl c => .err c
       | .inr (size, so, se) => .ok { size := size, files := s.files, dirs := s.dirs, stdout := so, stderr := se }
-    let (tr, out) := getAR s.cfg reply (scriptCas s.missing s.blobs s.faults)
+    let cas := scriptCas s.missing s.blobs s.faults
+    let (tr, out) := match composite with
+      | none => getAR s.cfg reply cas
+      | some sliceErr => getFromComposite s.cfg reply cas sliceErr
     let o := match out with
       | .result => "result"
       | .error c => s!"error {c}"
@@ -131,6 +135,10 @@ def step (s : S) (line : String) : S × String :=
     | some i, some c => ({ s with faults := s.faults ++ [(i, c)] }, "ok")
     | _, _ => (s, "bad-op")
   | ["run"] => (s, runCase s)
+  | ["runc", e] =>
+    match (if e == "-" then some none else (nat? e).map some) with
+    | some e => (s, runCase s (some e))
+    | none => (s, "bad-op")
   | ["visit", h] =>
     match hexBytes? h with
     | some bs => (s, showVisit (BB.Completeness.Wire.visit bs))
